@@ -175,6 +175,37 @@ def _put(fn: ast.FunctionDef) -> bool:
     ]
 
 
+def _entries_locked(fn: ast.FunctionDef) -> bool:
+    """Every read or write of `self._entries` in the method is inside a `with self._lock:` block (and there is one)."""
+    touched = 0
+
+    def walk(node: ast.AST, locked: bool) -> bool:
+        nonlocal touched
+        ok = True
+        if isinstance(node, ast.Attribute) and node.attr == "_entries" and isinstance(node.value, ast.Name) and node.value.id == "self":
+            touched += 1
+            if not locked:
+                return False
+        if isinstance(node, ast.With):
+            holds = any(ast.unparse(i.context_expr) == "self._lock" for i in node.items)
+            for i in node.items:
+                ok = walk(i.context_expr, locked) and ok
+            for st in node.body:
+                ok = walk(st, locked or holds) and ok
+            return ok
+        for ch in ast.iter_child_nodes(node):
+            ok = walk(ch, locked) and ok
+        return ok
+
+    res = all(walk(st, False) for st in _strip_doc(fn))
+    return res and touched > 0
+
+
+def _lock_is_mutex(init: ast.FunctionDef) -> bool:
+    """`self._lock = threading.Lock()` (a plain, non-reentrant mutex created per cache)."""
+    return any(ast.unparse(st) == "self._lock = threading.Lock()" for st in _strip_doc(init))
+
+
 # ------------------------------------------------------------------------------------------ token expiry
 
 
@@ -362,6 +393,10 @@ def emit() -> dict[str, str]:
     binds_method = call[4] is not None
     get_op, get_ok, get_refreshes = _get(_func(st, "get", "_CallStateCache"))
     put_ok = _put(_func(st, "put", "_CallStateCache"))
+    lock_ok = (
+        _entries_locked(_func(st, "get", "_CallStateCache")) and _entries_locked(_func(st, "put", "_CallStateCache"))
+        and _entries_locked(_func(st, "clear", "_CallStateCache")) and _lock_is_mutex(_func(st, "__init__", "_CallStateCache"))
+    )
     open_call_name = "_open_call_token_dated" if any(
         isinstance(n, ast.FunctionDef) and n.name == "_open_call_token_dated" for n in ast.walk(st)) else "_open_call_token"
     g1, a1 = _token_expiry(_func(st, "_open_cursor_token"))
@@ -454,6 +489,10 @@ def shape : Shape := {{ initAnchor := {sites["initAnchor"]}, missAnchor := {site
 def getRecognised : Bool := {b(get_ok)}
 /-- `put`: `entries[key] = (now + ttl, resolved)` ; `move_to_end(key)` ; `while len > max: popitem(last=False)` -/
 def putRecognised : Bool := {b(put_ok)}
+/-- lock discipline: `self._lock = threading.Lock()` and every read or write of `self._entries` in `get`, `put` and
+    `clear` is inside `with self._lock:` — each call is one critical section, so concurrent requests of a worker see
+    `get` / `put` as the atomic steps the model takes -/
+def entriesOnlyUnderLock : Bool := {b(lock_ok)}
 /-- both `put` call sites key the entry by `(call_id, auth)` of the current request -/
 def putKeysRecognised : Bool := {b(sites["keysOk"])}
 /-- `_unpack_and_recover_state`: cursor token opened first, then `get`, then (miss) call token, then `put`; state decoded afterwards -/
